@@ -20,7 +20,9 @@ from ..report import Ctx
 STRATS = ("DefaultPaginationStrategy.paginate", "PageByStrategy.paginate", "SublineStrategy.paginate")
 
 
-def r04_1(ctx: Ctx) -> None:
+def r04_1(ctx: Ctx, mode: str = "full") -> None:
+    """mode 'full' (C04): break <=> spec.  mode 'budget' (C03): a break must happen when the row does not fit
+    (over-filling direction only).  mode 'assign' (C02): every row gets exactly one page, counter monotone."""
     pm = ctx.pm
     fi = pm.func("PageBreakCalculator._assign_pages")
     loops = [n for n in walk_no_nested(fi.node) if isinstance(n, ast.For)]
@@ -66,6 +68,10 @@ def r04_1(ctx: Ctx) -> None:
     unknown = [a for a, r in role.items() if r.startswith("?")]
     missing = [r for r in "SGNICO" if r not in role.values()]
     ctx.instance("R04.1", fi.where(lp), f"loop body decision table: {len(leaves)} leaves over atoms {role}")
+    if mode == "budget":
+        missing = [m for m in missing if m in "CO"]
+    elif mode == "assign":
+        missing = []
     if missing:
         ctx.violation("R04.1", fi.short, "atoms missing " + ",".join(missing), fi.where(lp),
                       f"the break decision no longer consults {missing} (S=subline start, G=group start, N=new_page, I=i>0, C=current_rows>0, O=overflow)")
@@ -94,7 +100,12 @@ def r04_1(ctx: Ctx) -> None:
                 ctx.violation("R04.1", fi.short, "page counter " + str(cp), fi.where(lp), f"page counter becomes {cp}; it may only stay or increase by one per row")
                 continue
             extra = {a: val for a, val in v.items() if role.get(a, "?").startswith("?")}
-            if broke != want:
+            relevant = broke != want
+            if mode == "budget":
+                relevant = (C and O) and not broke          # only a missing overflow break over-fills a page
+            elif mode == "assign":
+                relevant = False
+            if relevant:
                 ctx.violation("R04.1", fi.short, f"break={broke} at S={S},G={G},N={N},I={I},C={C},O={O}" + (f",{extra}" if extra else ""), fi.where(lp),
                               f"_assign_pages {'breaks' if broke else 'does not break'} at subline_start={S}, group_start={G}, new_page={N}, i>0={I}, "
                               f"current_rows>0={C}, overflow={O}{' and ' + str(extra) if extra else ''}; required: break <=> current_rows>0 and (subline start or (new_page and group start) or overflow)")
@@ -119,7 +130,12 @@ def r04_1(ctx: Ctx) -> None:
         cf = compare_form(c, {"row_height": ast.parse(f"{rv}['total_rows']", mode="eval").body})
         want_cf = (">", {"current_rows": 1, f"{rv}['total_rows']": 1, "available_rows": -1})
         ctx.instance("R04.1", fi.where(c), f"overflow guard `{unparse(c)}` normal form {cf}")
-        if cf != want_cf:
+        bad_guard = cf != want_cf
+        if mode == "budget" and cf is not None and cf[1] == want_cf[1] and cf[0] in (">", ">="):
+            bad_guard = False          # breaking one row early never over-fills
+        if mode == "assign":
+            bad_guard = False
+        if bad_guard:
             ctx.violation("R04.1", fi.short, "overflow guard " + unparse(c), fi.where(c),
                           f"overflow test is `{unparse(c)}`; required: current_rows + row_height - available_rows > 0 (strict)")
     av = [a for a in walk_no_nested(fi.node) if isinstance(a, ast.Assign) and unparse(a.targets[0]) == "available_rows"]
@@ -148,7 +164,7 @@ def r04_1(ctx: Ctx) -> None:
         ctx.violation("R04.1", fi.short, "row source " + str(src_rows), fi.where(lp), "rows are not visited in metadata order")
 
 
-def r04_2(ctx: Ctx) -> None:
+def r04_2(ctx: Ctx, only: set | None = None) -> None:
     pm = ctx.pm
     want = {
         "DefaultPaginationStrategy.paginate": {"page_by": None, "subline_by": None, "new_page": None},
@@ -172,6 +188,8 @@ def r04_2(ctx: Ctx) -> None:
             kw[k.arg] = unparse(v)
         ctx.instance("R04.2", fi.where(calls[0]), f"{short}: calculate_row_metadata({', '.join(f'{k}={v}' for k, v in sorted(kw.items()))})")
         for k, v in {**w, **common}.items():
+            if only is not None and k not in only:
+                continue
             if kw.get(k) != v:
                 ctx.violation("R04.2", short, f"{k}={kw.get(k)}", fi.where(calls[0]), f"{short}: calculate_row_metadata is called with {k}={kw.get(k)}, expected {v}")
     c = pm.func("PageBreakCalculator.calculate_row_metadata")
@@ -189,12 +207,12 @@ def r04_2(ctx: Ctx) -> None:
     ctx.floor("R04.2", 6)
 
 
-def r04_3_4(ctx: Ctx) -> None:
+def r04_3_4(ctx: Ctx, lookahead: bool = True, flags: bool = True) -> None:
     pm = ctx.pm
     c = pm.func("PageBreakCalculator.calculate_row_metadata")
     a = pm.func("PageBreakCalculator._assign_pages")
     n = 0
-    for fi in (c, a):
+    for fi in ((c, a) if lookahead else ()):
         for lp in [x for x in walk_no_nested(fi.node) if isinstance(x, ast.For)]:
             ivs = [e.id for e in ast.walk(lp.target) if isinstance(e, ast.Name)]
             for sub in ast.walk(lp):
@@ -217,12 +235,15 @@ def r04_3_4(ctx: Ctx) -> None:
                     n += 1
                     if any(lf.get("", 0) > 0 and v in lf for v in ivs):
                         ctx.violation("R04.3", fi.short, "look-ahead " + unparse(call), fi.where(call), f"{fi.short}: `{unparse(call)}` reads a later row")
-    ctx.instance("R04.3", c.where(), f"{n} row-indexed reads in the pagination loops use index i or i-1 only")
+    if lookahead:
+        ctx.instance("R04.3", c.where(), f"{n} row-indexed reads in the pagination loops use index i or i-1 only")
     # vectorised whole-column operations in _assign_pages would be look-ahead in disguise
-    for call in walk_no_nested(a.node):
+    for call in (walk_no_nested(a.node) if lookahead else ()):
         if isinstance(call, ast.Call) and isinstance(call.func, ast.Attribute) and call.func.attr in ("cum_sum", "cumsum", "shift", "rolling_sum", "cumulative_eval"):
             ctx.violation("R04.3", a.short, "vectorised " + call.func.attr, a.where(call), f"_assign_pages uses {call.func.attr}: page numbers are no longer a greedy function of the preceding rows")
     # R04.4: change flags compare consecutive rows column by column
+    if not flags:
+        return
     for grp in ("page_by", "subline_by"):
         found = False
         for blk in [x for x in walk_no_nested(c.node) if isinstance(x, ast.If) and unparse(x.test) == grp]:
